@@ -46,6 +46,8 @@ func (t *EventTimer) Stop() {
 		return
 	}
 
+	verifTimerStop(t)
+
 	t.once.Do(func() {
 		close(t.done)
 	})
